@@ -148,8 +148,14 @@ class CTMCUniformGrid(CTMCGrid):
         l, r = compute_truncation(
             model=model, h=h, truncation_probability=truncation_probability
         )
-        nb_of_points_left = int(abs(l) / h)
-        nb_of_points_right = int(r / h)
+        if abs(l) <= h or r <= h:
+            raise ValueError(
+                "the spatial step h is larger than the truncation, choose a smaller value for h or a greater value "
+                "for the truncation_probability"
+            )
+        # at least the truncation bound and -h (resp. h) on each side of the origin
+        nb_of_points_left = max(int(abs(l) / h), 2)
+        nb_of_points_right = max(int(r / h), 2)
         if nb_of_points_left + nb_of_points_right > 1e8:
             raise ValueError(
                 "the number of points is greater than 10M, choose a smaller value for the "
